@@ -11,7 +11,7 @@
 (* spec/mc — the model refines the contract — and (b) on traces of the     *)
 (* real application by spec/trace/Trace.tla.                                *)
 (***************************************************************************)
-EXTENDS Events, Vesting, Oracle
+EXTENDS Events, Vesting, Oracle, Batch
 
 -----------------------------------------------------------------------------
 (* Ghost state transition *)
@@ -35,7 +35,8 @@ GhostNext(k, e, s, t, g) ==
                   ELSE IF inc \prec Zero THEN
                          (IF forceClose /\ x[1] \in CommitAccts(s) /\ s.commit.acct[x[1]].kind = "levpos" THEN << >> ELSE LiveLocks(old, now))
                   ELSE old]
-  IN [g EXCEPT !.donated = don1, !.c12drift = drift, !.locks = locks, !.vest = VestGhostNext(k, e, s, t, g.vest)]
+  IN [g EXCEPT !.donated = don1, !.c12drift = drift, !.locks = locks, !.vest = VestGhostNext(k, e, s, t, g.vest),
+                 !.batch = BatchGhostNext(k, e, g.batch)]
 
 \* ghost state at the start of a trace / schedule
 GhostStart(s) == [GhostInit(s) EXCEPT !.vest = VestGhostInit(s)]
@@ -143,7 +144,7 @@ JoinChecks(k, e, s, t, g) ==
   IN { Chk("C02", "C02.step.join_mints_response_shares", TRUE,
            /\ t.amm.pools[p].shares -- s.amm.pools[p].shares = e.resp.shareOut
            /\ Committed(t, u, sd) -- Committed(s, u, sd) = e.resp.shareOut
-           /\ e.resp.shareOut \succ Zero, ""),
+           /\ e.resp.shareOut \succeq Zero, ""),      \* (a dust join into a nearly emptied pool may mint nothing: the joiner's loss only)
        \* the pool books exactly the response's tokens; the joiner pays them, less a weight-recovery bonus that can
        \* only come out of the pool's rebalance treasury (oracle pools)
        Chk("C02", "C02.step.join_takes_response_tokens", TRUE,
@@ -392,7 +393,7 @@ LedgerChecks(k, e, s, t, g) ==
 StepChecks(k, e, s, t, g) ==
   C15StepChecks(k, e, s, t, g) \cup C12StepChecks(k, e, s, t, g) \cup C18StepChecks(k, e, s, t, g) \cup LedgerChecks(k, e, s, t, g)
     \cup PositionChecks(k, e, s, t, g) \cup KProductChecks(k, e, s, t, g) \cup C13StepChecks(k, e, s, t, g) \cup C07StepChecks(k, e, s, t, g)
-    \cup C14StepChecks(k, e, s, t, g.vest) \cup C16StepChecks(k, e, s, t)
+    \cup C14StepChecks(k, e, s, t, g.vest) \cup C16StepChecks(k, e, s, t) \cup C04StepChecks(k, e, s, t, g.batch)
 
 \* every state invariant of the specification (Invariants.tla + the sub-machines)
 AllInvChecks(s, g) == InvChecks(s, g) \cup InvC14(s, g.vest) \cup InvC16(s)
